@@ -22,6 +22,9 @@ func runC17(c *Ctx) {
 	c.Clause("C17.7 the closed-connection stand-in retransmits CONNECTION_CLOSE with exponential back-off: the packet counter is incremented atomically per packet and the retransmission is reached only when the count is a power of two; the remote-close stand-in ignores packets; ReplaceWithClosed picks the local stand-in exactly when a CONNECTION_CLOSE packet exists")
 	c.NotCovered("promptness; leak-freedom as such; timeout accuracy")
 	c.Clause("C17.8 no lost wake-up on streams: every method that writes a field which the blocking loops of Read/Peek/Write test in their branch conditions calls signalRead/signalWrite on every path after the store (in itself or in the private callers that wrap it); conditional-signalling sites are frozen exceptions with reasons")
+	c.Clause("C17.17 handleCloseError sends no CONNECTION_CLOSE and installs no closed stand-in when the cause is a stateless reset or a recreation after Version Negotiation; C17.18 every deletion from the handler map is followed by the empty-map test that stops a closed single-use transport")
+	c.Clause("C17.19 every struct-field channel that is signalled with a non-blocking send is created with capacity ≥ 1 (one-slot token: no lost wake-up between check and park)")
+	c.Clause("C17.16 a blocked Write that is woken re-checks shutdownErr and resetErr before it buffers data in nextFrame (closeForShutdown / CancelWrite discard that frame before waking the writer)")
 	c.Clause("C17.15 handleNewConn refuses (CONNECTION_REFUSED) the handshaking connection when the listener is closed (both the early and the non-early wait) and when the accept queue is full")
 	c.Clause("C17.14 datagramQueue.Add queues a datagram only after consulting the closed channel (SendDatagram after the connection ended returns the cause)")
 	c.Clause("C17.13 every return of Conn.run passes handleCloseError, and the send queue's goroutine is started before run can wait for it")
@@ -46,6 +49,10 @@ func runC17(c *Ctx) {
 	c.rule("C17.13", func() { c17RunSingleExit(c) })
 	c.rule("C17.14", func() { c17NoDatagramAfterClose(c) })
 	c.rule("C17.15", func() { c17ServerRefusesOnClose(c) })
+	c.rule("C17.16", func() { c17WokenWriteRechecksTermination(c) })
+	c.rule("C17.17", func() { c17NoCloseFrameAfterStatelessReset(c) })
+	c.rule("C17.18", func() { c17LastHandlerStopsListening(c) })
+	c.rule("C17.19", func() { c17SignalChannelsBuffered(c) })
 }
 
 // waitExceptions: blocking sites that are not woken by a shutdown-reachable signal, with the reason why that is right.
@@ -523,9 +530,49 @@ func c17Peer(c *Ctx) {
 		walk(p, 0)
 		return fromRemote && EdgeImplies(ifi, s, BoolTrue(func(v ssa.Value) bool { return v == ssa.Value(p) }), false)
 	}
+	// "immediate" is closeErr.immediate itself, or a local that starts as closeErr.immediate and is raised to true only
+	// where the cause was classified as a stateless reset or a recreation after Version Negotiation (nothing is due
+	// to the peer in either case, see C17.17)
+	silentCauses := []types.Type{types.Unalias(c.named("", "StatelessResetError").Type()), types.Unalias(c.named("", "errCloseForRecreating").Type())}
+	isImmediate := func(ifi *ssa.If, s int) bool {
+		if EdgeImplies(ifi, s, BoolTrue(Load(imm)), false) {
+			return true
+		}
+		p, ok := condCore(ifi.Cond).(*ssa.Phi)
+		if !ok || !EdgeImplies(ifi, s, BoolTrue(func(v ssa.Value) bool { return v == ssa.Value(p) }), false) {
+			return false
+		}
+		sawField := false
+		for k, e := range p.Edges {
+			if Load(imm)(e) {
+				sawField = true
+				continue
+			}
+			if !isConstBool(e, true) {
+				return false
+			}
+			pred := p.Block().Preds[k]
+			okc := false
+			for d := pred; d != nil && d.Idom() != nil; d = d.Idom() {
+				id := d.Idom()
+				if t := errorsAsTest(id); t != nil && id.Succs[0] == d && len(d.Preds) == 1 {
+					for _, sc := range silentCauses {
+						if types.Identical(t, sc) {
+							okc = true
+						}
+					}
+					break
+				}
+			}
+			if !okc {
+				return false
+			}
+		}
+		return sawField
+	}
 	c.cut(R, "pair:local, non-immediate close after the first packet → CONNECTION_CLOSE", &Cut{Fn: h, Target: isReturn, Barrier: CallsTo(send),
-		Edge: OrEdge(isRemote, EdgeRel(BoolTrue(Load(imm)), false), EdgeRel(BoolTrue(Load(sfp)), true))},
-		"every exit of handleCloseError has sent CONNECTION_CLOSE except for remote closes, immediate destroys and a client that never sent a packet")
+		Edge: OrEdge(isRemote, isImmediate, EdgeRel(BoolTrue(Load(sfp)), true))},
+		"every exit of handleCloseError has sent CONNECTION_CLOSE except for remote closes, immediate destroys (incl. stateless reset / recreation) and a client that never sent a packet")
 	// the packet sent carries the recorded error
 	smc := c.obj("", "streamsMap", "CloseWithError")
 	var e1 ssa.Value
